@@ -54,6 +54,7 @@ let show_cerr = function
 let show_presult = function POk _ -> "ok" | PErr e -> show_cerr e
 
 let rec nat_to_int = function O -> 0 | S k -> 1 + nat_to_int k
+let rec nat_of_int n = if n = 0 then O else S (nat_of_int (n - 1))
 
 type mstate = {
   bytes : n list;
@@ -222,6 +223,28 @@ let handle (line : string) : string =
       done
     with Exit -> ());
     Printf.sprintf "dg=%016Lx;n=%d" !h !n
+  | ["HU"; h] -> b2s (utf8_valid (str_of_hex h))
+  | ["HT"; h] -> let b = str_of_hex h in if utf8_valid b then hex_of_str (trim b) else "~"
+  | ["HL"; h] -> let b = str_of_hex h in if utf8_valid b then String.concat "," (List.map hex_of_str (lines b)) else "~"
+  | ["HC"; a; b] -> (match lex_cmp (str_of_hex a) (str_of_hex b) with Lt -> "Less" | Eq -> "Equal" | Gt -> "Greater")
+  | ["HP"; h] ->
+    let b = str_of_hex h in
+    if utf8_valid b then on (parse_uint u64 b) ^ ";" ^ on (parse_uint u32 b) else "~;~"
+  | ["HN"; h] -> String.concat "" (List.map (fun x -> b2s (is_numeric x)) (str_of_hex h))
+  | ["HB"; t; l] ->
+    let target = (match str_of_hex t with x :: _ -> x | [] -> N0) in
+    let l = str_of_hex l in
+    (match binary_search (fun x -> N.compare x target) N0 l with
+     | Some i -> "Some(" ^ string_of_int (nat_to_int i) ^ ")" | None -> "None")
+  | ["HE"; v] -> hex_of_str (leb128 (n_of_dec v))
+  | ["HD"; h] ->
+    (match leb_read (nat_of_int 11) N0 N0 (str_of_hex h) with
+     | Some (v, r) -> dec_of_n v ^ ";" ^ hex_of_str r | None -> "~")
+  | "HW" :: strs ->
+    let (t, offs) = List.fold_left (fun (t, acc) h -> let (t', o) = stab_insert t (str_of_hex h) in (t', acc @ [o])) (stab_empty, []) strs in
+    let bytes = stab_bytes t in
+    String.concat "," (List.map dec_of_n offs) ^ ";" ^ hex_of_str bytes ^ ";" ^
+    String.concat "," (List.map (fun o -> tok_of_ostr (read_string bytes o)) offs)
   | "A" :: toks ->
     (* a trace AST: e:<cls>:<msg|~>  f:<cls>:<meth>:<file>:<line>  c (start of the cause) *)
     let parse_node toks =
